@@ -265,7 +265,14 @@ class InitialConditions(SubCheck):
                     if not np.array_equal(h5[b][key], h5b[b][key], equal_nan=True):
                         return Outcome.fail("seed_not_reproducible_across_rng_history", f"row {b} {key}: same seed, different prior RNG consumption -> different output", labels, nontrivial)
             if case["T"] > 0:
-                _, _, h5c = _run(case, rows, S, X, wd, "c", seed=case["seed"] + 1, user_v=user_v)
+                try:
+                    _, _, h5c = _run(case, rows, S, X, wd, "c", seed=case["seed"] + 1, user_v=user_v)
+                except RuntimeError as e:
+                    if "Zero kinetic energy after removing COM momentum" in str(e):
+                        # the code refuses loudly a draw whose whole kinetic energy is centre-of-mass motion (first full thorough run,
+                        # seed 1, one case in 37505): nothing to compare -- this call had no handler and became a harness error
+                        return Outcome.inconclusive("zero_kinetic_energy_after_com_removal", labels)
+                    raise
                 row = 0 if user_v is None else -1      # with supplied velocities the seed shows in the thermostat noise of later rows
                 if all(np.array_equal(h5[b]["velocities/values"][row], h5c[b]["velocities/values"][row]) for b in range(B)):
                     return Outcome.fail("seed_has_no_effect", "a different seed gives an identical trajectory" if user_v is not None else "a different seed gives identical initial velocities", labels, nontrivial)
